@@ -685,6 +685,12 @@ class PendingAssign(PendingNode[Assign | AnnAssign]):
         else:
             assign_targets = self.node.targets
 
+        if len(assign_targets) > 1:
+            # evaluate the value once and bind the same object to every target
+            tmp_value_name = Name(id=ol_name(OL_ASSIGN_TMP))
+            return_list.append(NamedExpr(target=tmp_value_name, value=assign_value))
+            assign_value = tmp_value_name
+
         for target in assign_targets:
             return_list.extend(self.assign_auto(target, assign_value))
 
